@@ -3,8 +3,10 @@
 CAT = []
 
 
-def add(id, y, kind="original", tags=(), inputs=()):
+def add(id, y, kind="original", tags=(), inputs=(), costs=None):
     CAT.append(dict(id="cat-" + id, y=y, kind=kind, tags=list(tags), explicit=[list(x.split()) for x in inputs]))
+    if costs is not None:
+        CAT[-1]["costs"] = costs        # explicit token costs, by token index
 
 
 add("calc", """%start Expr
@@ -243,6 +245,18 @@ add("gc8", "%start S\n%%\nS: 'c' A | 'd' 'a' B | 'c' 'a' B 'c' | ;\nA: A C C 'b'
 # a state with three distinct (rule, length) reductions: core_reduces must list all three
 add("core-reduces3", "%start S\n%%\nS: A 'x' | B 'y' | C 'z' | D D 'w';\nA: 'a';\nB: 'a';\nC: 'a';\nD: ;\n", tags=["lr1"], inputs=["a x", "a y", "a z", "w", "a"])
 add("core-reduces4", "%start S\n%%\nS: 'q' A 'x' | 'q' B 'y' | 'q' C 'z' | 'q' E 'v';\nA: 'a' 'b';\nB: 'a' 'b';\nC: 'a' 'b';\nE: 'a' 'b';\n", tags=["lr1"], inputs=["q a b x", "q a b v", "q a b"])
+
+# two partial repairs of equal cost, one ending in a delete and one in an insert, reach the same
+# stack and position and a further insert is still needed: they must NOT be merged (both token orders)
+add("rec-merge-del-ins", "%start S\n%%\nS: 'a' Opt 't' 'z' 'c';\nOpt: | 'u' 'b';\n", tags=["rec"],
+    inputs=["a b c", "a b z c", "a c", "a b", "a u c", "a t c", "b c", "a b b c"])
+add("rec-merge-del-ins2", "%start S\n%%\nOpt: | 'u' 'b';\nS: 'a' Opt 't' 'z' 'c';\n", tags=["rec"],
+    inputs=["a b c", "a b z c", "a c", "a b", "a u c", "a t c", "b c", "a b b c"])
+# an avoided token inserted after a non-avoided one: the sequence still ranks behind the others
+add("rec-avoid-second", "%start X\n%avoid_insert 'q'\n%%\nX: 'p' 'q' | 'r' 's' 'w';\n", tags=["rec"],
+    inputs=["", "p", "r", "q", "w", "s w", "r w", "p w"], costs=[1, 2, 1, 1, 1, 1])
+add("rec-avoid-second2", "%start X\n%avoid_insert 'q' 'k'\n%%\nX: 'm' 'p' 'q' 'z' | 'm' 'r' 's' 'w' 'z' | 'm' 'k' 'j' 'z';\n", tags=["rec"],
+    inputs=["m z", "m", "z", "m w z", "m q z", "m j z", "m p z"], costs=[1, 1, 2, 1, 1, 1, 1, 2, 1, 1])
 
 
 def select(tags=None, exclude=()):
